@@ -241,3 +241,113 @@ def method_source_hash(repo, spec):
 
 register_extractor('section_parsers', section_parsers)
 register_extractor('method_source_hash', method_source_hash)
+
+
+# ---------------------------------------------------------------- option decision chains (C03)
+_OPT_ATOMS = {
+    'box is not None': 'is_some box',
+    'topology.box is not None': 'is_some tbox',
+    'not np.array_equal(topology.box, box)': 'negb (oeq tbox box)',
+    'density is not None': 'is_some density',
+}
+_OPT_VALUES = {'topology.box': 'tbox', 'box': 'box'}
+
+
+def option_chain(repo, spec):
+    """the if/elif chain of `func` that assigns `var` from optional inputs -> a Gallina function
+    over options.  Only whitelisted test atoms and values are accepted (fail closed); branches
+    that do not assign `var` keep it."""
+    src = Source(repo, spec['file'])
+    fn = src.find_def(spec['func'])
+    var = spec['var']
+
+    def assigns(stmts):
+        vals = [ast.unparse(s.value) for s in stmts for s in [s] if isinstance(s, ast.Assign) and len(s.targets) == 1
+                and ast.unparse(s.targets[0]) == var]
+        nested = [n for s in stmts for n in ast.walk(s) if isinstance(n, ast.Assign) and len(n.targets) == 1
+                  and ast.unparse(n.targets[0]) == var]
+        if len(nested) != len(vals):
+            raise TranslateError(f"{spec['file']}: nested assignment to {var} inside a branch of the chain")
+        if len(vals) > 1:
+            raise TranslateError(f"{spec['file']}: several assignments to {var} in one branch")
+        return vals[0] if vals else None
+    chains = [n for n in fn.body if isinstance(n, ast.If) and any(
+        isinstance(m, ast.Assign) and len(m.targets) == 1 and ast.unparse(m.targets[0]) == var for m in ast.walk(n))]
+    if len(chains) != 1:
+        raise TranslateError(f"{spec['file']}: expected one top-level if-chain assigning {var} in {spec['func']}, found {len(chains)}")
+    others = [n for n in ast.walk(fn) if isinstance(n, ast.Assign) and len(n.targets) == 1 and ast.unparse(n.targets[0]) == var]
+    inside = [n for n in ast.walk(chains[0]) if n in others]
+    if len(others) != len(inside):
+        raise TranslateError(f"{spec['file']}: {var} is also assigned outside the chain in {spec['func']}")
+    node = chains[0]
+    branches = []
+    while True:
+        conj = []
+        for c in _flatten_and(node.test):
+            t = ast.unparse(c)
+            if t not in _OPT_ATOMS:
+                raise TranslateError(f"{spec['file']}:{c.lineno}: test `{t}` not in the option-chain whitelist")
+            conj.append(_OPT_ATOMS[t])
+        val = assigns(node.body)
+        if val is not None and val not in _OPT_VALUES:
+            raise TranslateError(f"{spec['file']}:{node.lineno}: value `{val}` not in the option-chain whitelist")
+        branches.append((conj, _OPT_VALUES[val] if val is not None else var))
+        if len(node.orelse) == 1 and isinstance(node.orelse[0], ast.If):
+            node = node.orelse[0]
+            continue
+        if node.orelse:
+            val = assigns(node.orelse)
+            if val is not None and val not in _OPT_VALUES:
+                raise TranslateError(f"{spec['file']}:{node.lineno}: value `{val}` not in the option-chain whitelist")
+            branches.append(([], _OPT_VALUES[val] if val is not None else var))
+        break
+    body = var
+    for conj, val in reversed(branches):
+        test = ' && '.join(conj) if conj else 'true'
+        body = f"if {test} then {val} else ({body})"
+    where, sha = src.stamp(chains[0])
+    text = (f"(* {spec['name']} <- {where} sha256={sha} *)\n"
+            "Section OptionChain.\nVariables (B D : Type) (beq : B -> B -> bool).\n"
+            "Definition is_some {A} (o : option A) : bool := match o with Some _ => true | None => false end.\n"
+            "Definition oeq (a b : option B) : bool := match a, b with Some x, Some y => beq x y | None, None => true | _, _ => false end.\n"
+            f"Definition {spec['name']} (box tbox : option B) (density : option D) : option B :=\n  {body}.\n"
+            "End OptionChain.\n")
+    return text, {'name': spec['name'], 'where': where, 'sha256': sha}
+
+
+def init_box(repo, spec):
+    """BuildSystem.__init__: `if not isinstance(self.box, type(None)): self.box = box  else:
+    box_dim = round(_compute_box_size(topology, self.density), N); self.box = np.array([box_dim]*3)`
+    and `topology.box = (self.box[0], self.box[1], self.box[2])` -> Gallina over options + the digits N"""
+    src = Source(repo, spec['file'])
+    fn = src.find_def(spec['func'])
+    hits = [n for n in fn.body if isinstance(n, ast.If) and ast.unparse(n.test) == 'not isinstance(self.box, type(None))']
+    if len(hits) != 1:
+        raise TranslateError(f"{spec['file']}: expected one `if not isinstance(self.box, type(None))` in {spec['func']}")
+    n = hits[0]
+    body = [ast.unparse(s) for s in n.body]
+    orelse = [ast.unparse(s) for s in n.orelse]
+    if body != ['self.box = box']:
+        raise TranslateError(f"{spec['file']}:{n.lineno}: box branch is {body}")
+    if len(orelse) != 2 or not orelse[0].startswith('box_dim = round(_compute_box_size(topology, self.density), ') \
+            or orelse[1] != 'self.box = np.array([box_dim, box_dim, box_dim])':
+        raise TranslateError(f"{spec['file']}:{n.lineno}: density branch is {orelse}")
+    digits = int(orelse[0][len('box_dim = round(_compute_box_size(topology, self.density), '):-1])
+    before = [ast.unparse(s) for s in fn.body[:fn.body.index(n)] if isinstance(s, ast.Assign) and ast.unparse(s.targets[0]) == 'self.box']
+    if before != ['self.box = box']:
+        raise TranslateError(f"{spec['file']}: self.box initialised as {before}")
+    after = [ast.unparse(s) for s in fn.body[fn.body.index(n):] if isinstance(s, ast.Assign) and ast.unparse(s.targets[0]) == 'topology.box']
+    if after != ['topology.box = (self.box[0], self.box[1], self.box[2])']:
+        raise TranslateError(f"{spec['file']}: topology.box set as {after}")
+    where, sha = src.stamp(n)
+    text = (f"(* {spec['name']} <- {where} sha256={sha} *)\n"
+            "Section InitBox.\nVariables (S : Type).\n"
+            f"Definition {spec['name']} (box : option (S * S * S)) (rounded_edge : S) : S * S * S :=\n"
+            "  match box with Some b => b | None => (rounded_edge, rounded_edge, rounded_edge) end.\n"
+            "End InitBox.\n"
+            f"Definition {spec['name']}_round_digits : Z := {digits}%Z.\n")
+    return text, {'name': spec['name'], 'where': where, 'sha256': sha}
+
+
+register_extractor('option_chain', option_chain)
+register_extractor('init_box', init_box)
